@@ -125,7 +125,7 @@ def interpret(tree, merge_buses=True):
                         t = head(tv)
                         if t == "string":
                             v = tv[1][1:-1]
-                        elif t == "integer":
+                        elif t == "integer" or (t == "number" and isinstance(tv[1], str)):
                             v = int(tv[1])
                         elif t == "boolean":
                             v = head(tv[1]) == "true"
